@@ -11,9 +11,11 @@ import (
 
 // Bundle is a root document plus auxiliary JSON documents at relative paths.
 type Bundle struct {
-	Root M            `json:"root"`
-	Aux  map[string]M `json:"aux"` // relative path (from the root's directory) -> document
-	Feat map[string]int
+	Root     M            `json:"root"`
+	Aux      map[string]M `json:"aux"` // relative path (from the root's directory) -> document
+	Feat     map[string]int
+	MustFail bool // W+: some planted $ref cannot be resolved
+	Plus     []string
 }
 
 type bgen struct {
@@ -28,6 +30,7 @@ type bgen struct {
 	bodyParams  []string            // shared body parameters
 	schemaResps []string            // shared responses with a schema
 	scnOps      int
+	auxShared   []string // auxiliary documents that carry shared responses / parameters
 }
 
 var auxPathPool = []string{"aux/a.json", "aux/deep/b.json", "other/c.json"}
@@ -312,6 +315,15 @@ func genBundle(g *Gen, o BundleOpts) *Bundle {
 			g.hit("rec:aux-self")
 		}
 		aux[ap] = M{"definitions": defs}
+		if b.plus && g.p(0.35) {
+			// shared objects living in an auxiliary document (W+ only: W's parameter / response $refs target shared objects
+			// of the root; cross-file ones make Flatten fail or leave non-canonical $refs on the unchanged tree for some
+			// shapes, which are recorded as observations outside W)
+			aux[ap]["responses"] = M{"auxResp": M{"description": "from aux", "schema": b.bschema(ap, 2, 0.5)}}
+			aux[ap]["parameters"] = M{"auxParam": M{"name": "body", "in": "body", "schema": b.bschema(ap, 2, 0.5)}}
+			b.auxShared = append(b.auxShared, ap)
+			g.hit("aux:shared-objects")
+		}
 	}
 	// shared parameters / responses
 	params := M{}
@@ -365,7 +377,10 @@ func genBundle(g *Gen, o BundleOpts) *Bundle {
 			}
 			var ps []any
 			if g.p(0.5) {
-				if len(params) > 0 && g.p(0.4) {
+				if len(b.auxShared) > 0 && b.anonOK && g.p(0.2) { // (not under Expand: spec.ExpandSpec mis-rebases such a parameter, see DESIGN.md)
+					ps = append(ps, M{"$ref": b.auxShared[g.n(len(b.auxShared))] + "#/parameters/auxParam"})
+					g.hit("op:paramref-cross-file")
+				} else if len(params) > 0 && g.p(0.4) {
 					ps = append(ps, M{"$ref": "#/parameters/" + jsonPtrEscape(sortedMapKeys(params)[g.n(len(params))])})
 					g.hit("op:paramref")
 				} else {
@@ -383,7 +398,10 @@ func genBundle(g *Gen, o BundleOpts) *Bundle {
 				if !g.p(0.45) {
 					continue
 				}
-				if len(resps) > 0 && g.p(0.3) {
+				if len(b.auxShared) > 0 && g.p(0.2) {
+					rs[code] = M{"$ref": b.auxShared[g.n(len(b.auxShared))] + "#/responses/auxResp"}
+					g.hit("op:respref-cross-file")
+				} else if len(resps) > 0 && g.p(0.3) {
 					rs[code] = M{"$ref": "#/responses/" + jsonPtrEscape(sortedMapKeys(resps)[g.n(len(resps))])}
 					g.hit("op:respref")
 				} else {
@@ -407,7 +425,17 @@ func genBundle(g *Gen, o BundleOpts) *Bundle {
 		}
 		paths[pth] = pi
 	}
-	b.injectScenario(o.Scenario, rootDefs, paths, aux)
+	b.injectScenario(o.Scenario, rootDefs, paths, aux, params, resps)
+	var mustFail bool
+	var plusWhat []string
+	if o.Plus {
+		var what []string
+		mustFail, what = b.injectPlus(rootDefs, paths, aux)
+		for _, w := range what {
+			g.hit("plus:" + w)
+		}
+		plusWhat = what
+	}
 	root := M{"swagger": "2.0", "info": M{"title": "t", "version": "1"}, "paths": paths, "definitions": rootDefs}
 	if len(params) > 0 {
 		root["parameters"] = params
@@ -415,11 +443,11 @@ func genBundle(g *Gen, o BundleOpts) *Bundle {
 	if len(resps) > 0 {
 		root["responses"] = resps
 	}
-	return &Bundle{Root: root, Aux: aux, Feat: g.feat}
+	return &Bundle{Root: root, Aux: aux, Feat: g.feat, MustFail: mustFail, Plus: plusWhat}
 }
 
 // injectScenario plants an interplay shape that W allows but that independent random choices rarely produce together.
-func (b *bgen) injectScenario(name string, rootDefs, paths M, aux map[string]M) {
+func (b *bgen) injectScenario(name string, rootDefs, paths M, aux map[string]M, params, resps M) {
 	g := b.Gen
 	resp := func(schema M) M {
 		b.scnOps++
@@ -468,6 +496,45 @@ func (b *bgen) injectScenario(name string, rootDefs, paths M, aux map[string]M) 
 		}
 		paths["/scn/root"] = M{"get": resp(M{"$ref": "#/definitions/" + jsonPtrEscape(rn)})}
 		g.hit("scenario:collide-many")
+	case "expand-via-response":
+		// the root has no schema $ref of its own: every schema $ref is reached through a response $ref into an auxiliary
+		// document (acyclic chain of definitions there)
+		for k := range rootDefs {
+			delete(rootDefs, k)
+		}
+		rootDefs["plain"] = M{"type": "string"}
+		for _, m := range []M{paths, params, resps} {
+			for k := range m {
+				delete(m, k)
+			}
+		}
+		for k := range aux {
+			delete(aux, k)
+		}
+		ap := "aux/resp.json"
+		aux[ap] = M{
+			"responses":   M{"things": M{"description": "things", "schema": M{"type": "array", "items": M{"$ref": "#/definitions/thing"}}}},
+			"definitions": M{"thing": M{"type": "object", "properties": M{"tag": M{"$ref": "#/definitions/t~0ag"}}}, "t~ag": M{"type": "string"}},
+		}
+		paths["/scn/things"] = M{"get": M{"operationId": "scenarioThings", "responses": M{"200": M{"$ref": ap + "#/responses/things"}}}}
+		g.hit("scenario:expand-via-response")
+	case "collide-nested":
+		// three-way name conflict (root, two auxiliary documents) where one imported definition refers to a sibling whose
+		// name also conflicts with a root definition
+		tn, ln := g.pick([]string{"Tag", "pet", "Thing"}), g.pick([]string{"Label", "owner", "Part"})
+		rootDefs[tn] = M{"type": "object", "properties": M{"id": M{"type": "integer"}}}
+		rootDefs[ln] = M{"type": "object", "properties": M{"id": M{"type": "integer"}}}
+		for _, ap := range []string{"aux/a.json", "other/c.json"} {
+			if _, ok := aux[ap]; !ok {
+				aux[ap] = M{"definitions": M{}}
+			}
+		}
+		aux["aux/a.json"]["definitions"].(M)[tn] = M{"type": "object", "properties": M{"name": M{"type": "string"}}}
+		aux["other/c.json"]["definitions"].(M)[tn] = M{"type": "object", "properties": M{"label": M{"$ref": "#/definitions/" + jsonPtrEscape(ln)}}}
+		aux["other/c.json"]["definitions"].(M)[ln] = M{"type": "object", "properties": M{"text": M{"type": "string"}}}
+		paths["/scn/a"] = M{"get": resp(M{"$ref": "aux/a.json#/definitions/" + jsonPtrEscape(tn)})}
+		paths["/scn/c"] = M{"get": resp(M{"$ref": "other/c.json#/definitions/" + jsonPtrEscape(tn)})}
+		g.hit("scenario:collide-nested")
 	case "unused-chain":
 		// definitions that become unused only after another one is removed, through names that need escaping
 		a, c := g.pick([]string{"legacy/item", "old~v1", "dead code", "zz"}), g.pick([]string{"leaf", "Leaf node", "l/2"})
@@ -475,4 +542,80 @@ func (b *bgen) injectScenario(name string, rootDefs, paths M, aux map[string]M) 
 		rootDefs[c] = M{"type": "string"}
 		g.hit("scenario:unused-chain")
 	}
+}
+
+// injectPlus adds constructs of the wider class W+ (C09): anonymous pointers to arbitrary positions, pointers nested in
+// pointer targets, references from auxiliary documents back to the root, non-$ref-free name collisions, dangling $refs.
+// It reports whether some planted $ref cannot be resolved (then Flatten must return an error).
+func (b *bgen) injectPlus(rootDefs, paths M, aux map[string]M) (mustFail bool, what []string) {
+	g := b.Gen
+	n := 0
+	resp := func(schema M) M {
+		n++
+		return M{"operationId": fmt.Sprintf("plusOp%d", n), "responses": M{"200": M{"description": "plus", "schema": schema}}}
+	}
+	addPath := func(schema M) {
+		paths[fmt.Sprintf("/plus/%d", len(paths))] = M{g.pick(allMethods): resp(schema)}
+	}
+	for i, k := 0, 1+g.n(2); i < k; i++ {
+		switch g.n(7) {
+		case 0:
+			rootDefs["plusOdd"] = M{"type": "object", "additionalProperties": g.p(0.5), "properties": M{"t": M{"type": "array", "items": []any{M{"type": "string"}, M{"type": "integer"}}, "additionalItems": g.p(0.5)}}}
+			addPath(M{"$ref": g.pick([]string{"#/definitions/plusOdd/additionalProperties", "#/definitions/plusOdd/properties/t/items", "#/definitions/plusOdd/properties/t/additionalItems", "#/definitions/plusOdd/properties/t/items/1"})})
+			what = append(what, "pointer-to-bool-or-tuple")
+		case 1:
+			addPath(M{"$ref": g.pick([]string{"#/info", "#/paths", "#/swagger", "#/definitions"})})
+			what = append(what, "pointer-to-non-schema")
+		case 2:
+			var ps []string
+			for p := range paths {
+				ps = append(ps, p)
+			}
+			sort.Strings(ps)
+			if len(ps) > 0 {
+				p := ps[g.n(len(ps))]
+				for _, m := range allMethods {
+					if _, ok := paths[p].(M)[m]; ok {
+						addPath(M{"$ref": "#/paths/" + jsonPtrEscape(p) + "/" + m + g.pick([]string{"", "/responses/200", "/responses/200/schema"})})
+						break
+					}
+				}
+			}
+			what = append(what, "pointer-to-operation")
+		case 3:
+			r := g.pick([]string{"#/definitions/plusMissing", "aux/missing.json#/definitions/x", "#/definitions/plusMissing/properties/p"})
+			if len(b.auxPaths) > 0 && g.p(0.4) {
+				r = b.auxPaths[0] + "#/definitions/plusMissing"
+			}
+			addPath(M{"$ref": r})
+			mustFail = true
+			what = append(what, "dangling")
+		case 4:
+			if len(b.auxPaths) > 0 {
+				ap := b.auxPaths[g.n(len(b.auxPaths))]
+				back := relRef(ap, "root.json") + "#/definitions/" + jsonPtrEscape(b.rootDefs[0])
+				aux[ap]["definitions"].(M)["plusBack"] = M{"type": "object", "properties": M{"up": M{"$ref": back}}}
+				addPath(M{"$ref": relRef("", ap) + "#/definitions/plusBack"})
+				what = append(what, "aux-back-to-root")
+			}
+		case 5:
+			rootDefs["plusChainA"] = M{"type": "object", "properties": M{"p": M{"$ref": "#/definitions/plusChainB/properties/q"}}}
+			rootDefs["plusChainB"] = M{"type": "object", "properties": M{"q": M{"type": "object", "properties": M{"deep": M{"type": "string"}}}}}
+			addPath(M{"$ref": "#/definitions/plusChainA/properties/p"})
+			if g.p(0.3) {
+				rootDefs["plusChainB"].(M)["properties"].(M)["q"] = M{"$ref": "#/definitions/plusChainA/properties/p"} // a cycle of pointers
+				what = append(what, "pointer-cycle")
+			}
+			what = append(what, "pointer-in-pointer-target")
+		default:
+			if len(b.auxPaths) > 0 {
+				ap := b.auxPaths[0]
+				rn := b.rootDefs[g.n(len(b.rootDefs))]
+				aux[ap]["definitions"].(M)[rn] = M{"type": "object", "properties": M{"self": M{"$ref": "#/definitions/" + jsonPtrEscape(rn)}, "other": b.bschema(ap, 1, 0.6)}}
+				addPath(M{"$ref": relRef("", ap) + "#/definitions/" + urlFragEscape(jsonPtrEscape(rn))})
+				what = append(what, "collision-with-refs")
+			}
+		}
+	}
+	return mustFail, what
 }
